@@ -18,6 +18,11 @@ type followUp struct {
 	built2  int
 	r2      FEv
 	wantTok Tok
+	// quiescent observation (before any time passes): only when every build succeeds and no fault is injected
+	q      FEv
+	qDone  bool
+	qBuilt int
+	qWant  Tok
 }
 
 type c04Obs struct {
@@ -33,12 +38,35 @@ func c04Post(h *fh) {
 	obs := &c04Obs{locks: h.front.KeyLocks()}
 	c04Last = obs
 
+	// First, with no time passing: where every build succeeded and nothing was rejected, a Get now observes the
+	// result of the last completed build of its key and has nothing to build.
+	quiet := map[int]followUp{}
+
+	if h.cfg.Script == "o" && !h.cfg.Faults {
+		for k := range h.names {
+			nb := h.nbuild[k]
+			if nb == 0 {
+				continue
+			}
+
+			key := append([]byte(nil), h.keys[k]...)
+			h.ev(FEv{Kind: "get-start", Key: k, Name: "quiescent"})
+			t, isNil, _, err := h.front.Get(context.Background(), key, h.builder(k))
+			e := FEv{Kind: "get-end", Key: k, Tok: t, Nil: isNil, Err: err, Name: "quiescent"}
+			h.ev(e)
+			vsched.Join()
+
+			quiet[k] = followUp{q: e, qDone: true, qBuilt: h.nbuild[k] - nb, qWant: Tok{K: h.names[k], O: "b", N: nb - 1}}
+		}
+	}
+
 	vclock.Advance(2 * time.Hour) // everything stored so far is expired beyond MaxStaleness, cached failures are gone
 	h.cfg.Script = "o"
 	h.cfg.Faults = false // the confirmation phase itself runs fault-free
 
 	for k := range h.names {
-		fu := followUp{key: k}
+		fu := quiet[k]
+		fu.key = k
 		nb := h.nbuild[k]
 		fu.wantTok = Tok{K: h.names[k], O: "b", N: nb}
 
@@ -93,6 +121,11 @@ func c04Check(h *fh, r *vsched.Result) []Violation {
 
 	for _, fu := range obs.follows {
 		key := h.names[fu.key]
+
+		if fu.qDone && (fu.q.Err != nil || fu.q.Nil || fu.q.Tok != fu.qWant || fu.qBuilt != 0) {
+			vs = append(vs, Violation{Signature: fmt.Sprintf("C04 %s quiescent-not-last-build %s", front, mode),
+				Detail: fmt.Sprintf("with all Gets and builds finished (all builds succeeded, no time passed) a Get(%s) returned (%v nil=%v, %v) and built %d times; want the last completed build %v without building", key, fu.q.Tok, fu.q.Nil, fu.q.Err, fu.qBuilt, fu.qWant)})
+		}
 
 		if fu.built1 != 1 {
 			vs = append(vs, Violation{Signature: fmt.Sprintf("C04 %s follow-up-no-build %s", front, mode),
@@ -181,7 +214,7 @@ func init() {
 		Cells: c04Cells, Run: c04Run,
 		Rule: "cell = front-end x configuration x entry state x builder outcome x caller behaviour after return (overwrite the key buffer, reuse one buffer for the next Get as bench/failover.go does, cancel the context, nothing) x backend fault on/off; " +
 			"all schedules within the preemption bound incl. every position of the caller's buffer overwrite relative to the background build; termination is decided by the scheduler's deadlock detection, " +
-			"key locks are counted at quiescence through a verif-tagged accessor, and a black-box follow-up (forced expiry, two more Gets per key) must build exactly once and observe that build",
+			"key locks are counted at quiescence through a verif-tagged accessor; where all builds succeed a Get at quiescence (no time passing) must return the last completed build without building; and a black-box follow-up (forced expiry, two more Gets per key) must build exactly once and observe that build",
 		Assumptions: []string{
 			"deadlock = no runnable controlled thread while some are blocked; no wall-clock time-out is used as an oracle",
 			"the follow-up phase runs under the scheduler after all worker threads joined",
